@@ -123,6 +123,7 @@ type spRunner struct {
 	barrier  chan struct{}
 	done     map[string]chan struct{}
 
+	free  bool // free-running mode: no gates, the backend answers at once, the refresh timer is on
 	conns map[string]*spConn
 	dummy *spConn
 	uidOf map[string]string // conn name -> client uid
@@ -146,8 +147,8 @@ func epNum(s string) int {
 	return n
 }
 
-func newSPRunner(bi int, proto centrifuge.ProtocolType, versioned bool) (*spRunner, error) {
-	r := &spRunner{proto: proto, versioned: versioned, ch: fmt.Sprintf("sp%d_%d", vh.Seed(), bi),
+func newSPRunner(bi int, proto centrifuge.ProtocolType, versioned bool, free ...bool) (*spRunner, error) {
+	r := &spRunner{proto: proto, versioned: versioned, free: len(free) > 0 && free[0], ch: fmt.Sprintf("sp%d_%d", vh.Seed(), bi),
 		bk: map[string]bkItem{}, defs: map[string]int{}, keyIDs: map[string]map[int]bool{}, gids: map[int64]string{}, policy: map[string]*parkPolicy{},
 		arrivals: make(chan *spArrival, 16), pending: map[string]*spArrival{}, barrier: make(chan struct{}, 16),
 		done: map[string]chan struct{}{}, conns: map[string]*spConn{}, uidOf: map[string]string{}}
@@ -158,6 +159,9 @@ func newSPRunner(bi int, proto centrifuge.ProtocolType, versioned bool) (*spRunn
 	}
 	opts := centrifuge.SharedPollChannelOptions{Mode: mode, KeepLatestData: true, RefreshInterval: time.Hour,
 		ChannelShutdownDelay: time.Hour, CallTimeout: time.Minute}
+	if r.free {
+		opts.RefreshInterval = 25 * time.Millisecond
+	}
 	env, err := cl.NewEnv(centrifuge.Config{
 		LogLevel:   centrifuge.LogLevelTrace,
 		LogHandler: r.logGate,
@@ -187,6 +191,13 @@ func newSPRunner(bi int, proto centrifuge.ProtocolType, versioned bool) (*spRunn
 
 // backend is the scripted OnSharedPoll handler.
 func (r *spRunner) backend(_ context.Context, ev centrifuge.SharedPollEvent) (centrifuge.SharedPollResult, error) {
+	if r.free {
+		ks := make([]string, 0, len(ev.Items))
+		for _, it := range ev.Items {
+			ks = append(ks, it.Key)
+		}
+		return *r.answer(ks), nil
+	}
 	keys := make([]string, 0, len(ev.Items))
 	onlySentinel := true
 	for _, it := range ev.Items {
@@ -218,7 +229,7 @@ func (r *spRunner) backend(_ context.Context, ev centrifuge.SharedPollEvent) (ce
 
 // logGate is the node's LogHandler: the trace entry written between the two phases of a keyed write.
 func (r *spRunner) logGate(e centrifuge.LogEntry) {
-	if e.Message != "-out->" {
+	if r.free || e.Message != "-out->" {
 		return
 	}
 	ps, ok := e.Fields["push"].(string)
@@ -1135,3 +1146,200 @@ func sharedPollMode(in json.RawMessage, res *vh.Result) error {
 }
 
 var _ = bytes.Equal
+
+// ---------------------------------------------------------------- free-running driver (real timers)
+
+// freeRun drives a node whose refresh timer is on (25 ms) with a seeded random schedule of backend changes,
+// publishes, track / untrack / revoke / resubscribe on two connections; the frame monitors run on everything the
+// connections receive, and after the schedule every tracking connection must end up holding the backend's newest
+// payload of the key within a bounded settle time (C25 liveness on the real timers).
+func (r *spRunner) freeRun(bi int, nops int, res *vh.Result) {
+	defer r.env.Close()
+	rng := newRng(vh.Seed()*31337 + int64(bi))
+	keys := []string{"k1", "k2"}
+	nextID := 0
+	change := func(k string) bkItem {
+		nextID++
+		r.mu.Lock()
+		it := bkItem{r.bk[k].ver + 1, nextID}
+		r.bk[k] = it
+		r.mu.Unlock()
+		r.define(0, k, it.ver, it.id)
+		return it
+	}
+	var log []string
+	completed := 1
+	replay := func() map[string]any {
+		fr := map[string]any{}
+		for n, c := range r.conns {
+			fr[n] = c.seen
+		}
+		return map[string]any{"versioned": r.versioned, "proto": r.protoName(), "ops": log, "frames": fr}
+	}
+	fail := func(sig, what string) {
+		res.Violate("C25", sig+":"+r.protoName(), fmt.Sprintf("%s (free run %d %s versioned=%v)", what, bi, r.protoName(), r.versioned), replay())
+		completed = 0
+	}
+	for _, k := range keys {
+		change(k)
+	}
+	for _, n := range []string{"c1", "c2"} {
+		c, err := r.newConn(n)
+		if err != nil {
+			res.Drift("C25", "free run connect: "+err.Error(), nil)
+			res.Done(1, 0)
+			return
+		}
+		r.conns[n] = c
+		if _, err := r.subscribe(c); err != nil {
+			res.Drift("C25", "free run subscribe: "+err.Error(), nil)
+			res.Done(1, 0)
+			return
+		}
+	}
+	defer func() {
+		for _, c := range r.conns {
+			c.conn.Client.Disconnect()
+			c.conn.Cancel()
+		}
+	}()
+	observe := func() {
+		for name, c := range r.conns {
+			for _, v := range r.consume(c) {
+				fail(v.sig, "connection "+name+": "+v.what)
+			}
+		}
+	}
+	cmd := func(c *spConn, f spFrame, req *protocol.SubRefreshRequest) {
+		id := c.conn.NextID()
+		c.reqs[id] = f
+		c.conn.Do(&protocol.Command{Id: id, SubRefresh: req})
+		c.conn.WaitReply(id, 3*time.Second)
+	}
+	for i := 0; i < nops && completed == 1; i++ {
+		c := r.conns[[]string{"c1", "c2"}[rng.Intn(2)]]
+		k := keys[rng.Intn(len(keys))]
+		observe() // the client model must be current before it decides what to send
+		switch p := rng.Intn(100); {
+		case p < 40:
+			it := change(k)
+			log = append(log, fmt.Sprintf("change %s v%d #%d", k, it.ver, it.id))
+			if r.versioned && rng.Intn(3) == 0 {
+				log = append(log, "publish "+k)
+				_ = r.env.Node.SharedPollPublish(context.Background(), r.ch, k, it.ver, "", r.pl.get(it.id))
+			}
+		case p < 65:
+			if c.subbed && !c.tracked[k] {
+				v := uint64(0)
+				if rng.Intn(2) == 0 {
+					v = c.cver[k]
+				}
+				log = append(log, fmt.Sprintf("%s track %s v%d", c.name, k, v))
+				cmd(c, spFrame{T: "trackreply", K: k, Ver: int(v)}, &protocol.SubRefreshRequest{Channel: r.ch, Type: 1,
+					Track: []*protocol.TrackBatch{{Items: []*protocol.KeyedItem{{Key: k, Version: v}}}}})
+			}
+		case p < 78:
+			if c.subbed && c.tracked[k] {
+				log = append(log, fmt.Sprintf("%s untrack %s", c.name, k))
+				cmd(c, spFrame{T: "untrackreply", K: k}, &protocol.SubRefreshRequest{Channel: r.ch, Type: 2, Untrack: []string{k}})
+			}
+		case p < 83:
+			log = append(log, "revoke "+k)
+			centrifuge.VerifSharedPollRevokeKeys(r.env.Node, r.ch, []string{k})
+		case p < 90:
+			if c.subbed {
+				log = append(log, c.name+" unsubscribe")
+				id := c.conn.NextID()
+				c.conn.Do(&protocol.Command{Id: id, Unsubscribe: &protocol.UnsubscribeRequest{Channel: r.ch}})
+				c.conn.WaitReply(id, 3*time.Second)
+			} else {
+				log = append(log, c.name+" subscribe")
+				_, _ = r.subscribe(c)
+			}
+		}
+		time.Sleep(time.Duration(rng.Intn(12)) * time.Millisecond)
+	}
+	// settle: with the timer running every tracking connection must reach the backend's newest payload
+	deadline := time.Now().Add(6 * time.Second)
+	for completed == 1 {
+		stale := ""
+		for _, c := range r.conns {
+			if closed, _ := c.conn.T.Closed(); !closed {
+				c.conn.Barrier(2 * time.Second)
+			}
+		}
+		observe()
+		for name, c := range r.conns {
+			for _, k := range keys {
+				if !c.subbed || !c.tracked[k] {
+					continue
+				}
+				r.mu.Lock()
+				want := r.bk[k]
+				r.mu.Unlock()
+				h := c.held[k]
+				if h != nil && h.has && r.pl.idOf(h.held) == want.id {
+					continue
+				}
+				if (h == nil || !h.has) && r.versioned && c.cver[k] == want.ver {
+					continue // tracked with the newest version: nothing to send
+				}
+				stale = fmt.Sprintf("connection %s tracks %s, the backend holds payload #%d (version %d), the connection has version %d", name, k, want.id, want.ver, c.cver[k])
+			}
+		}
+		if stale == "" {
+			break
+		}
+		if time.Now().After(deadline) {
+			fail("not-newest-after-settle", stale+" 6 s after the last operation (refresh interval 25 ms)")
+			break
+		}
+		time.Sleep(25 * time.Millisecond)
+	}
+	if completed == 1 {
+		res.Distinct(fmt.Sprintf("free%d%s%v", bi, r.protoName(), r.versioned))
+	}
+	if bi < 1 {
+		res.Sample(replay())
+	}
+	res.Done(1, completed)
+}
+
+type spFreeIn struct {
+	N   int `json:"n"`
+	Ops int `json:"ops"`
+}
+
+func sharedPollFreeMode(in json.RawMessage, res *vh.Result) error {
+	var fi spFreeIn
+	if err := json.Unmarshal(in, &fi); err != nil {
+		return err
+	}
+	jobs := make(chan int)
+	var wg sync.WaitGroup
+	for i := 0; i < 6; i++ {
+		wg.Add(1)
+		go func() {
+			defer wg.Done()
+			for bi := range jobs {
+				proto := centrifuge.ProtocolTypeJSON
+				if bi%2 == 1 {
+					proto = centrifuge.ProtocolTypeProtobuf
+				}
+				r, err := newSPRunner(bi, proto, bi%4 < 2, true)
+				if err != nil {
+					res.Drift("C25", "node setup: "+err.Error(), nil)
+					res.Done(1, 0)
+					continue
+				}
+				r.freeRun(bi, fi.Ops, res)
+			}
+		}()
+	}
+	for bi := 0; bi < fi.N; bi++ {
+		jobs <- bi
+	}
+	close(jobs)
+	wg.Wait()
+	return nil
+}
